@@ -397,10 +397,9 @@ fn cross<Y: CodecUnderTest>(run: &mut Run, oracle: &str, encoder: &str, bytes: &
 fn check_version<Cl: CodecUnderTest, Br: CodecUnderTest>(run: &mut Run, rng: &mut Rng) {
     let c = run.canon;
     let tail: Vec<u8> = (0..rng.below(4)).map(|_| rng.below(256) as u8).collect();
-    // F2: the broker's MQTT 5 decoder has no arm for CONNACK / UNSUBACK (panics). Decoding
-    // its own encoding of those is attempted only in trigger cases.
-    let f2 = Br::NAME == "d5" && (c.ptype == canon::CONNACK || c.ptype == canon::UNSUBACK);
-    let skip_broker_decode = f2 && !run.case.triggers;
+    // (the broker's MQTT 5 decoder used to panic on CONNACK / UNSUBACK and its self round-trip was
+    // restricted to trigger cases; repaired in /repo, so it now runs on every case)
+    let skip_broker_decode = false;
     // either codec first, so a known finding in one does not always hide the other
     let (broker, client);
     if rng.chance(1, 2) {
